@@ -59,6 +59,11 @@ pub fn resolve_all_reason(
     reason_unresolves: &mut HashMap<InferFailReason, Vec<UnResolve>>,
     loop_count: usize,
 ) {
+    #[cfg(feature = "verif-hooks")]
+    let mut reason_view =
+        crate::verif_hooks::OrderedMapView::new("unresolve.resolve_all_reason", reason_unresolves);
+    #[cfg(feature = "verif-hooks")]
+    let reason_unresolves = &mut reason_view;
     for (reason, _) in reason_unresolves.iter_mut() {
         resolve_as_any(db, reason, loop_count);
     }
